@@ -11,6 +11,8 @@
                                         <m> = i (inherited) | n (own, not callable) | r<primitive> (own function)
     A<values>] array   O(<units>.<value>)*} object   J<value> object whose toJSON returns <value>
     R<n>. reference to the n-th enclosing array/object (a cycle)
+    H<units>.<value> (as a member or element) an accessor whose getter returns <value> and makes the
+                     holder's property <units> non-enumerable
   replacer: -  |  f<id> (function family, see `replFn`)  |  L<items>] with items S.. D.. BS.. BD.. Z(other)
             |  G<items>] the same list as a bridged Go []interface{} (items S.. D.. Z)
   optional last token e1 / e2: the runtime's Object.prototype has a setter / a read-only 7 named "a" and ""
@@ -78,6 +80,7 @@ partial def readSV (cs : List Char) : Option (SV × List Char) :=
   | 'B' :: 'D' :: r => (readF64 r).map fun p => (.boxNum p.1, p.2)
   | 'B' :: 'S' :: r => (readUnits r).map fun p => (.boxStr p.1, p.2)
   | 'J' :: r => (readSV r).map fun p => (.tojson p.1, p.2)
+  | 'H' :: r => (readUnits r).bind fun h => (readSV h.2).map fun p => (.getter p.1 h.1, p.2)
   | 'R' :: r =>
     let ds := r.takeWhile Char.isDigit
     match r.dropWhile Char.isDigit with
@@ -162,15 +165,23 @@ def isObjRV : RV → Bool
   | .null | .arr _ | .obj _ => true
   | _ => false
 
+/-- `return v`: undefined stays undefined -/
+def retV : RV → Option RV
+  | .undef => none
+  | v => some v
+
 /-- the reviver family (the harness holds the same table as JavaScript source) -/
 def reviverFn : Nat → Option Reviver
-  | 0 => some fun _ v => some v
-  | 1 => some fun k v => if k = sA then none else some v
-  | 2 => some fun _ v => match v with | .num _ => none | v => some v
-  | 3 => some fun k v => match v with | .str _ => some (.str k) | v => some v
-  | 4 => some fun _ v => match v with | .bool _ => some .null | v => some v
-  | 5 => some fun k v => if k ≠ [] ∧ isObjRV v then some (.str [111]) else some v
-  | 6 => some fun k v => if k = [98] ∨ k = [49] then none else some v
+  | 0 => some fun _ v => ⟨retV v, none⟩
+  | 1 => some fun k v => ⟨if k = sA then none else retV v, none⟩
+  | 2 => some fun _ v => ⟨match v with | .num _ => none | v => retV v, none⟩
+  | 3 => some fun k v => ⟨match v with | .str _ => some (.str k) | v => retV v, none⟩
+  | 4 => some fun _ v => ⟨match v with | .bool _ => some .null | v => retV v, none⟩
+  | 5 => some fun k v => ⟨if k ≠ [] ∧ isObjRV v then some (.str [111]) else retV v, none⟩
+  | 6 => some fun k v => ⟨if k = [98] ∨ k = [49] then none else retV v, none⟩
+  -- 7, 8: called for "a", delete the sibling "b" of the holder; 7 turns an undefined value into "u"
+  | 7 => some fun k v => ⟨match v with | .undef => some (.str [117]) | v => some v, if k = sA then some [98] else none⟩
+  | 8 => some fun k v => ⟨retV v, if k = sA then some [98] else none⟩
   | _ => none
 
 def logTok (l : List Str) : String := ",".intercalate (l.map fun k => "k" ++ unitsOut k)
@@ -185,7 +196,7 @@ def handleRevive (text : Str) (f : Reviver) : String :=
     | some mv => "det:" ++ revTok (reviveTop f fuel (rvOf mv))
   let specTok := match Spec.jsonParse text with
     | none => "throw:SyntaxError"
-    | some v => "det:" ++ revTok (Spec.revive f fuel [] (rvOf v))
+    | some v => let r := Spec.revive f fuel [] (rvOf v); "det:" ++ revTok (r.1.val, r.2)
   reply modelTok specTok (joinDev (parseDevs text))
 
 /-! ### JSON.stringify -/
@@ -193,6 +204,7 @@ def handleRevive (text : Str) (f : Reviver) : String :=
 
 def isObjectish : SV → Bool
   | .null | .boxNum _ | .boxStr _ | .boxBool _ | .arr _ | .obj _ | .tojson _ | .back _ | .wrapNum .. | .wrapStr .. => true
+  | .getter r _ => isObjectish r
   | _ => false
 
 /-- the replacer function family (the harness holds the same table as JavaScript source) -/
